@@ -2123,17 +2123,32 @@ RULE = ('exhaustive small scope. Indexed strings, memory-backed: every sequence 
         '(offsets and bytes compared in full, reads sampled). Change-directed: for every small integer literal K new in '
         'the tree, chunk sizes K-1, K, K+1 x entry / byte counts K-1, K, K+1, 2K, 2K+1, fields sharing chunk size K, '
         'plain columns and batch buffers of K values; 4x the random budget when any library source changed. '
+        'Names (kind names): an alphabet of ~134 names = 8 names the implementation reserves (trash, values, index, '
+        'key_names, key_values, chunksize, fieldtype, timestamp; plus, when a loader source changed, the string literals '
+        'it compares names with) x 13 relations (equal, suffixed, prefixed, embedded, doubled, truncated left / right, '
+        'upper, capitalised, space before / after, dotted, numbered) + 30 unusual valid names (space, dots, tab, newline, '
+        'quotes, backslash, format directives, non-ASCII, 255 / 256 / 1000 characters, attribute-like words); EVERY name '
+        'as a field name under 2 (6) field types next to a related name, EVERY name (but the reserved group trash) as a '
+        'dataframe name holding a numeric, float, fixed-string, timestamp, categorical (category names from the alphabet) '
+        'and indexed-string field, 4-5 dataframes with related names in one file in both creation orders, the dataset '
+        'opened under alphabet names, reopen r / r+, 150 (1500) random files; the listing of the dataset and of every '
+        'dataframe and every field under its name are compared in the session and after close + reopen in a fresh Session. '
         'Non-trivial = at least one value written (multi: to at least two fields).')
 EXHAUSTIVE = {'quick': True, 'thorough': True}
 TRUSTED = ['numpy slicing / slice assignment / np.zeros and h5py dataset create/resize/slice are modelled as list '
            'operations (np_slice, np_assign in coq/Model/IdxWriter.v), exercised here, not verified',
            'str.encode()/bytes.decode() (UTF-8) stay in the harness: the model sees byte lists',
-           'HDF5 persistence (close + reopen returns the bytes written) is observed by the correspondence only']
+           'HDF5 persistence (close + reopen returns the bytes written) is observed by the correspondence only',
+           'names (of dataframes, fields, categories) never reach the model: a file is a collection of independent '
+           'fields (wire case 5 = the list of the sub-cases\' answers); that the names created are the names listed is '
+           'stated by the harness (from_val)']
 ASSUMPTIONS = ['values written are representable in the field dtype (no casting overflow is modelled)',
                'a field is read only while it has nothing staged itself (other fields may have); write_part(a, '
                'move_mem=True) hands the array over and is outside the property (model fidelity only)',
                'fixed-string values do not end in NUL (numpy S dtype strips trailing NULs)',
-               'chunksize >= 1']
+               'chunksize >= 1',
+               'names are valid HDF5 link names (non-empty, no "/", not "."); a dataframe is not called trash (the group '
+               'HDF5Dataset reserves)']
 TECHNIQUE = ('Coq proof (state-machine model of WriteableIndexedFieldArray and of the memory/HDF5 field arrays = '
              'concat/prefix-sum spec, for every chunksize and partition; a world of several fields: every interleaving '
              '= the per-field histories; a heap of arrays with identity = the value semantics) + exhaustive small-scope '
